@@ -21,8 +21,11 @@ use std::task::{Context, Poll};
 use tokio::io::{AsyncRead, AsyncWrite, ReadBuf};
 use uuid::Uuid;
 
-pub const IN_CAP: usize = 160;
+pub const IN_CAP: usize = 192;
 pub const OUT_CAP: usize = 320;
+/// Byte buffers are stored as rows of 64: CBMC keeps arrays of up to 64 elements field-sensitive (each element its
+/// own symbol, so path-wise concrete bytes stay concrete) and raising that limit globally blows the formula up.
+pub const ROW: usize = 32;
 
 // ------------------------------------------------------------------------------------------------ UTF-8 model
 // (same model as engines/x/harness/passage-packets/common.rs, proven equal to std there: utf8_model_equals_std)
@@ -56,7 +59,8 @@ pub fn model_from_utf8(v: &[u8]) -> Result<&str, core::str::Utf8Error> {
 }
 
 // ------------------------------------------------------------------------------------------------ transport
-pub static mut OUT: [u8; OUT_CAP] = [0; OUT_CAP];
+pub static mut OUT: [[u8; ROW]; OUT_CAP / ROW] = [[0; ROW]; OUT_CAP / ROW];
+pub fn out_get(i: usize) -> u8 { unsafe { OUT[i / ROW][i % ROW] } }
 pub static mut OUT_N: usize = 0;
 pub static mut WRITES: u32 = 0;
 /// number of read attempts answered with the cancellation marker / with end-of-stream
@@ -74,14 +78,14 @@ pub fn cancel_hook() -> bool {
         false
     }
 }
-pub struct Pipe { pub input: [u8; IN_CAP], pub len: usize, pub pos: usize }
+pub struct Pipe { pub input: [[u8; ROW]; IN_CAP / ROW], pub len: usize, pub pos: usize }
 impl Pipe {
-    pub fn new(input: [u8; IN_CAP], len: usize) -> Self { unsafe { PIPE_POS = 0; } Pipe { input, len, pos: 0 } }
+    pub fn new(input: [[u8; ROW]; IN_CAP / ROW], len: usize) -> Self { unsafe { PIPE_POS = 0; } Pipe { input, len, pos: 0 } }
 }
 impl AsyncRead for Pipe {
     fn poll_read(self: Pin<&mut Self>, _cx: &mut Context<'_>, rb: &mut ReadBuf<'_>) -> Poll<std::io::Result<()>> {
         let me = self.get_mut();
-        while me.pos < me.len && me.pos < IN_CAP && rb.remaining() > 0 { rb.put_u8(me.input[me.pos]); me.pos += 1; }
+        while me.pos < me.len && me.pos < IN_CAP && rb.remaining() > 0 { rb.put_u8(me.input[me.pos / ROW][me.pos % ROW]); me.pos += 1; }
         unsafe { PIPE_POS = me.pos; }
         Poll::Ready(Ok(()))
     }
@@ -91,7 +95,7 @@ impl AsyncWrite for Pipe {
         unsafe {
             WRITES += 1;
             let mut i = 0;
-            while i < data.len() { assert!(OUT_N < OUT_CAP, "harness: output log too small"); OUT[OUT_N] = data[i]; OUT_N += 1; i += 1; }
+            while i < data.len() { assert!(OUT_N < OUT_CAP, "harness: output log too small"); OUT[OUT_N / ROW][OUT_N % ROW] = data[i]; OUT_N += 1; i += 1; }
         }
         Poll::Ready(Ok(data.len()))
     }
@@ -269,10 +273,10 @@ pub fn rsa_honest(secret: &[u8; 16], issued: &[u8; 32]) {
 }
 
 // ------------------------------------------------------------------------------------------------ client script
-pub struct Script { pub buf: [u8; IN_CAP], pub n: usize, pub enc: Option<(u8, u32)>, frame_at: usize }
+pub struct Script { pub buf: [[u8; ROW]; IN_CAP / ROW], pub n: usize, pub enc: Option<(u8, u32)>, frame_at: usize }
 impl Script {
-    pub fn new() -> Self { Script { buf: [0; IN_CAP], n: 0, enc: None, frame_at: 0 } }
-    fn raw(&mut self, b: u8) { assert!(self.n < IN_CAP, "harness: script buffer too small"); self.buf[self.n] = b; self.n += 1; }
+    pub fn new() -> Self { Script { buf: [[0; ROW]; IN_CAP / ROW], n: 0, enc: None, frame_at: 0 } }
+    fn raw(&mut self, b: u8) { assert!(self.n < IN_CAP, "harness: script buffer too small"); self.buf[self.n / ROW][self.n % ROW] = b; self.n += 1; }
     /// from now on the client encrypts with the model stream cipher keyed by `secret` (key = IV)
     pub fn start_encryption(&mut self, secret: &[u8; 16]) { self.enc = Some((cfb8::seed(secret, secret), 0)); }
     pub fn begin(&mut self, id: u8) { self.frame_at = self.n; self.raw(0); self.raw(id); }
@@ -280,10 +284,10 @@ impl Script {
     pub fn end(&mut self) {
         let len = self.n - self.frame_at - 1;
         assert!(len < 128);
-        self.buf[self.frame_at] = len as u8;
+        self.buf[self.frame_at / ROW][self.frame_at % ROW] = len as u8;
         if let Some((seed, pos)) = self.enc {
             let mut p = pos; let mut i = self.frame_at;
-            while i < self.n { self.buf[i] ^= cfb8::ks(seed, p); p += 1; i += 1; }
+            while i < self.n { self.buf[i / ROW][i % ROW] ^= cfb8::ks(seed, p); p += 1; i += 1; }
             self.enc = Some((seed, p));
         }
     }
@@ -318,7 +322,7 @@ impl Out {
     fn byte(&mut self) -> u8 {
         unsafe {
             assert!(self.i < OUT_N, "decoder: clientbound stream ended inside a frame");
-            let mut b = OUT[self.i]; self.i += 1;
+            let mut b = OUT[self.i / ROW][self.i % ROW]; self.i += 1;
             if let Some((seed, pos)) = self.dec { b ^= cfb8::ks(seed, pos); self.dec = Some((seed, pos + 1)); }
             b
         }
